@@ -431,6 +431,33 @@ _fam("framer/v2", "framer", "house h\n", "framer f", [
     ("via", "via stuff of framer"),
     ("in", "in back"),
 ], post="frame a\nframe b\n")
+# roster families: every schedule x every order, so that the list a tasker lands in (house.fronts / mids /
+# backs / taskables / slaves / auxes / moots, all part of the dump) cannot depend on the clause order
+for _be in ("active", "inactive", "aux", "slave", "moot"):
+    for _ord in ("front", "mid", "back"):
+        if (_be, _ord) in (("active", "front"), ("inactive", "back")):
+            continue        # already the two families above
+        _fam("framer/%s-%s" % (_be, _ord), "framer", "house h\n", "framer f", [
+            ("be", "be " + _be),
+            ("at", "at 0.5"),
+            ("first", "first b"),
+            ("via", "via .f.node"),
+            ("in", "in " + _ord),
+        ], post="frame a\nframe b\n")
+for _be in ("active", "inactive", "slave"):
+    for _ord in ("front", "mid", "back"):
+        _fam("logger/%s-%s" % (_be, _ord), "logger", "house h\n", "logger lg", [
+            ("to", "to /tmp/verif-nolog"),
+            ("at", "at 0.25"),
+            ("be", "be " + _be),
+            ("in", "in " + _ord),
+        ], post="  log one\n    loggee .a.b\nframer f be active\nframe a\n")
+        _fam("server/%s-%s" % (_be, _ord), "server", "house h\n", "server s", [
+            ("at", "at 0.5"),
+            ("be", "be " + _be),
+            ("in", "in " + _ord),
+            ("to", "to /tmp/verif-nosrv"),
+        ], post="framer f be active\nframe a\n")
 _fam("frame", "frame", "house h\nframer f be active\nframe a\n", "frame b", [
     ("in", "in a"),
     ("via", "via .fr.node"),
